@@ -1,6 +1,7 @@
 package sim
 
 import (
+	"encoding/binary"
 	"fmt"
 
 	"github.com/jrhy/mast"
@@ -102,10 +103,51 @@ func (w *World) opRootCheck(op *Op) {
 			if fm == FmtBinary {
 				// a length prefix exceeding the buffer
 				b := append([]byte(nil), topBytes...)
-				if len(b) >= 2 {
+				if len(b) >= 2 && b[0] < 0x80 {
 					bad := append([]byte{b[0], 0xff, 0xff, 0x7f}, b[2:]...)
 					if _, err := DecodeNode(fm, bad); err != nil {
 						putBytes("top-node-length-exceeds-buffer", bad)
+					}
+				}
+				// an entry count, link count or body length that cannot be true of any buffer of
+				// this size: one more than the buffer holds, 2^45, 2^63-1, 2^63 and 2^64-1. (Counts
+				// between about 2^24 and 2^44 are left out on purpose: a decoder that allocates by the
+				// count before looking at the buffer would take the whole machine down with it, which
+				// no in-process check survives; the values used here make such a decoder panic.)
+				if dn != nil {
+					uv := func(v uint64) []byte { return binary.AppendUvarint(nil, v) }
+					list := func(count []byte, items [][]byte) []byte {
+						out := append([]byte(nil), count...)
+						for _, it := range items {
+							out = append(out, uv(uint64(len(it)))...)
+							out = append(out, it...)
+						}
+						return out
+					}
+					linkItems := make([][]byte, len(dn.Links))
+					for i, l := range dn.Links {
+						linkItems[i] = []byte(l)
+					}
+					huge := []uint64{uint64(len(topBytes)) + 1, 1 << 45, 1<<63 - 1, 1 << 63, 1<<64 - 1}
+					for _, h := range huge {
+						hv := uv(h)
+						for sec := 0; sec < 3; sec++ {
+							counts := [][]byte{uv(uint64(len(dn.Keys))), uv(uint64(len(dn.Vals))), uv(uint64(len(linkItems)))}
+							counts[sec] = hv
+							bad := append(append(list(counts[0], dn.Keys), list(counts[1], dn.Vals)...), list(counts[2], linkItems)...)
+							if _, err := DecodeNode(fm, bad); err != nil {
+								putBytes("top-node-count-exceeds-buffer/"+[]string{"keys", "values", "links"}[sec], bad)
+							}
+						}
+						if len(dn.Keys) > 0 {
+							// the first key's body length
+							bad := append([]byte(nil), uv(uint64(len(dn.Keys)))...)
+							bad = append(bad, hv...)
+							bad = append(bad, topBytes[len(uv(uint64(len(dn.Keys)))):]...)
+							if _, err := DecodeNode(fm, bad); err != nil {
+								putBytes("top-node-body-length-exceeds-buffer", bad)
+							}
+						}
 					}
 				}
 			} else {
